@@ -505,6 +505,9 @@ func (w *World) adoptSpawned(point string, g uint64) {
 	t := &Task{W: w, Name: fmt.Sprintf("%s#%d", strings.TrimPrefix(point, "auto:"), k), goid: g, wake: make(chan struct{}), done: make(chan struct{}), daemon: true, spawned: true}
 	sti32(&t.state, stRunning)
 	w.addTask(t)
+	if p := w.lookup(parentGoid()); p != nil {
+		t.prio = p.prio // priority policy: a goroutine continues the activity of the one that started it
+	}
 	t.park("start", true)
 }
 
